@@ -29,6 +29,7 @@
    [literal_starts] is only there for Coq's termination checker, S (length line) is enough for a non-empty pattern
    (Proofs/SimplePlanP.v literal_starts_complete). *)
 From RN Require Export Base.Bytes Model.Edits Model.Matcher Model.Hunks.
+From RN Require Import Model.ApplyModel.   (* utf8_ok: std::str::from_utf8(..).is_ok() *)
 Open Scope N_scope.
 
 (* ---- content_inspector::inspect(content) == BINARY (content_inspector 0.2.4): BOMs first (a BOM makes the
@@ -168,9 +169,20 @@ Definition scan_text (t : bytes) : list fhunk :=
 
 (* process_file_content(path, ...) -> (file_matches, has_matches); [bat] = options.binary_as_text() (-uuu).
    has_matches is set exactly where a hunk is pushed. *)
-Definition process_file_content (bat : bool) (c : bytes) : list fhunk * bool :=
+(* THE CODE BEFORE repo fix 0904d0d decoded the file with String::from_utf8_lossy and scanned the decoded copy: for a file that
+   is not valid UTF-8 the recorded offsets were offsets into that copy, not into the file (SimplePlanP.SimpleWitness.*_refuted,
+   reproduced on the real planner).  Kept because the general theorems are proved for it and the current function is an
+   instance; [lossy] is the identity on valid text (lossy_of_utf8). *)
+Definition process_file_content_lossy (bat : bool) (c : bytes) : list fhunk * bool :=
   if negb bat && is_binary c then ([], false)
   else let hs := scan_text (lossy c) in (hs, match hs with [] => false | _ => true end).
+
+(* THE CURRENT CODE: a file that is not valid UTF-8 is left out, like a binary file (`let Ok(content) = std::str::from_utf8(..)
+   else { return Ok((file_matches, false)) }`); otherwise the text itself is scanned *)
+Definition process_file_content (bat : bool) (c : bytes) : list fhunk * bool :=
+  if negb bat && is_binary c then ([], false)
+  else if negb (utf8_ok c) then ([], false)
+  else let hs := scan_text c in (hs, match hs with [] => false | _ => true end).
 
 Record sstats := { st_files_scanned : nat; st_total : nat; st_by_variant : list (bytes * nat); st_files_with : nat }.
 
